@@ -152,6 +152,10 @@ static inline int readline_history_up(struct readline *rl)
     if (rl->curhist == rl->history_size)
         return 0;
 
+    // no older line has been entered yet
+    if (*readline_history_pointer(rl, rl->curhist + 1) == '\0')
+        return 0;
+
     rl->curhist++;
 
     readline_load_history_line(rl);
